@@ -112,6 +112,25 @@ def generate(tier, rng):
         h, flows, refused = history_with_flows(rng, key, n)
         for f in probe_frames(rng, key, flows, refused):
             yield Script(cfg, h + [f], "history+probe")
+    # an IPv4 flow and the flow with the same ports between the IPv4-mapped IPv6 forms of its addresses are two flows:
+    # each holds half a request while the other one sends data (accepted with its own cookie, or refused), then completes
+    half1, half2 = b"GET /index.html HT", b"TP/1.1\r\nHost: a\r\n\r\n"
+    for key in ((0, 0), (1, 2)):
+        for first_v6 in (False, True):
+            a4, b4 = gens.PEER4, gens.SELF4
+            a6, b6 = "::ffff:" + a4, "::ffff:" + b4
+            (xs, xd), (ys, yd) = ((a6, b6), (a4, b4)) if first_v6 else ((a4, b4), (a6, b6))
+            sp = rng.randrange(1024, 65536)
+            x = gens.handshake(key, xs, xd, sp, 80, [half1])
+            cky = net.cookie(key, ys, yd, sp, 80)
+            for ack in ((cky + 1) & 0xFFFFFFFF, rng.getrandbits(32)):
+                other = [net.frame_tcp(ys, yd, sp, 80, 1, 0, 0x02),
+                         net.frame_tcp(ys, yd, sp, 80, 2, ack, 0x18, b"SSH-2.0-x\r\n"),
+                         net.frame_tcp(ys, yd, sp, 80, 14, ack, 0x18, b"\r\n\r\n")]
+                ckx = net.cookie(key, xs, xd, sp, 80)
+                probe = net.frame_tcp(xs, xd, sp, 80, 1001 + len(half1), (ckx + 1) & 0xFFFFFFFF, 0x18, half2)
+                yield Script(Cfg(key=key), x + other + [probe], "mapped-twin")
+                yield Script(Cfg(key=key), x + other + [net.frame_tcp(ys, yd, sp, 80, 18, ack, 0x18, half2)], "mapped-twin:probe-on-twin")
     p1, p2 = pressure_script(rng, (1, 2))
     yield p1
     yield p2
